@@ -492,3 +492,560 @@ theorem numberSuffixes_tiles' (src : List Char) (toks : List Tok) (p q : Nat) (h
     exact ⟨out, e2, e3⟩
 
 end Harper
+
+namespace Harper
+
+/-! ## non-tiling input (Markdown / masked / Typst front-ends): in bounds, possibly with gaps, unordered, zero-width -/
+
+/-- every token is a well-formed span inside a text of `n` characters (any order, gaps, zero width allowed) -/
+def InBounds (n : Nat) (toks : List Tok) : Prop := ∀ t ∈ toks, t.span.start ≤ t.span.stop ∧ t.span.stop ≤ n
+
+/-- both endpoints of every token are inside a text of `n` characters (the span may be reversed) -/
+def EndsInBounds (n : Nat) (toks : List Tok) : Prop := ∀ t ∈ toks, t.span.start ≤ n ∧ t.span.stop ≤ n
+
+instance (n : Nat) (toks : List Tok) : Decidable (InBounds n toks) :=
+  inferInstanceAs (Decidable (∀ t ∈ toks, _))
+instance (n : Nat) (toks : List Tok) : Decidable (EndsInBounds n toks) :=
+  inferInstanceAs (Decidable (∀ t ∈ toks, _))
+
+theorem InBounds.ends {n : Nat} {toks : List Tok} (h : InBounds n toks) : EndsInBounds n toks :=
+  fun t ht => ⟨Nat.le_trans (h t ht).1 (h t ht).2, (h t ht).2⟩
+
+/-- tokens in text order inside `[a, b]`: gaps and zero-width tokens allowed (`Tiles` with `≤` for `=` and `<`) -/
+def Gap : List Tok → Nat → Nat → Prop
+  | [], a, b => a ≤ b
+  | t :: ts, a, b => a ≤ t.span.start ∧ t.span.start ≤ t.span.stop ∧ Gap ts t.span.stop b
+
+instance : (ts : List Tok) → (a b : Nat) → Decidable (Gap ts a b)
+  | [], a, b => inferInstanceAs (Decidable (a ≤ b))
+  | t :: ts, _, b =>
+    have := instDecidableGap ts t.span.stop b
+    inferInstanceAs (Decidable (_ ∧ _ ∧ _))
+
+/-- ordered (pairwise `stop ≤ start`), well-formed, in bounds -/
+def SortedIn (n : Nat) (toks : List Tok) : Prop :=
+  toks.Pairwise (fun x y => x.span.stop ≤ y.span.start) ∧ InBounds n toks
+
+theorem Gap.le {ts : List Tok} {a b : Nat} (h : Gap ts a b) : a ≤ b := by
+  induction ts generalizing a with
+  | nil => exact h
+  | cons t ts ih => obtain ⟨h1, h2, h3⟩ := h; have := ih h3; omega
+
+theorem Gap.mono {ts : List Tok} {a a' b b' : Nat} (h : Gap ts a b) (ha : a' ≤ a) (hb : b ≤ b') : Gap ts a' b' := by
+  induction ts generalizing a a' with
+  | nil => simp only [Gap] at h ⊢; omega
+  | cons t ts ih => obtain ⟨h1, h2, h3⟩ := h; exact ⟨by omega, h2, ih h3 (Nat.le_refl _)⟩
+
+theorem Gap.append {l1 l2 : List Tok} {a m b : Nat} (h1 : Gap l1 a m) (h2 : Gap l2 m b) :
+    Gap (l1 ++ l2) a b := by
+  induction l1 generalizing a with
+  | nil => simp only [Gap] at h1; simpa using h2.mono h1 (Nat.le_refl _)
+  | cons t ts ih => obtain ⟨x, y, z⟩ := h1; exact ⟨x, y, ih z⟩
+
+theorem Gap.of_append {l1 l2 : List Tok} {a b : Nat} (h : Gap (l1 ++ l2) a b) :
+    ∃ m, Gap l1 a m ∧ Gap l2 m b := by
+  induction l1 generalizing a with
+  | nil => exact ⟨a, Nat.le_refl _, by simpa using h⟩
+  | cons t ts ih =>
+    obtain ⟨x, y, z⟩ := h
+    obtain ⟨m, h1, h2⟩ := ih z
+    exact ⟨m, ⟨x, y, h1⟩, h2⟩
+
+theorem Gap.mem {ts : List Tok} {a b : Nat} (h : Gap ts a b) :
+    ∀ t ∈ ts, a ≤ t.span.start ∧ t.span.start ≤ t.span.stop ∧ t.span.stop ≤ b := by
+  induction ts generalizing a with
+  | nil => intro t ht; cases ht
+  | cons x ts ih =>
+    obtain ⟨h1, h2, h3⟩ := h
+    intro t ht
+    rcases List.mem_cons.mp ht with rfl | ht
+    · exact ⟨h1, h2, h3.le⟩
+    · have := ih h3 t ht; omega
+
+theorem Gap.sortedIn {ts : List Tok} {a b : Nat} (h : Gap ts a b) : SortedIn b ts := by
+  refine ⟨?_, fun t ht => ⟨(h.mem t ht).2.1, (h.mem t ht).2.2⟩⟩
+  induction ts generalizing a with
+  | nil => exact List.Pairwise.nil
+  | cons x ts ih =>
+    obtain ⟨h1, h2, h3⟩ := h
+    exact List.pairwise_cons.mpr ⟨fun y hy => (h3.mem y hy).1, ih h3⟩
+
+theorem SortedIn.gap {n : Nat} {ts : List Tok} (h : SortedIn n ts) : Gap ts 0 n := by
+  suffices ∀ a, (∀ t ∈ ts, a ≤ t.span.start) → a ≤ n → Gap ts a n from this 0 (fun _ _ => Nat.zero_le _) (Nat.zero_le _)
+  obtain ⟨hp, hb⟩ := h
+  induction ts with
+  | nil => intro a _ ha; exact ha
+  | cons x ts ih =>
+    intro a ha _
+    obtain ⟨hx, hp'⟩ := List.pairwise_cons.mp hp
+    have hbx := hb x (by simp)
+    exact ⟨ha x (by simp), hbx.1, ih hp' (fun t ht => hb t (List.mem_cons_of_mem _ ht)) _ hx hbx.2⟩
+
+theorem gap_iff_sortedIn (n : Nat) (ts : List Tok) : Gap ts 0 n ↔ SortedIn n ts := ⟨Gap.sortedIn, SortedIn.gap⟩
+
+
+/-! ### a property of spans that survives merging: the flagged-vector passes -/
+
+theorem mem_of_mem_unflag {α} {l : List (α × Bool)} {x : α} (h : x ∈ unflag l) : (x, false) ∈ l := by
+  induction l with
+  | nil => simp at h
+  | cons p r ih =>
+    obtain ⟨y, b⟩ := p
+    cases b
+    · simp only [unflag_cons_false, List.mem_cons] at h
+      rcases h with rfl | h
+      · simp
+      · exact List.mem_cons_of_mem _ (ih h)
+    · simp only [unflag_cons_true] at h
+      exact List.mem_cons_of_mem _ (ih h)
+
+/-- `condense_spaces` / `condense_newlines`: a property of spans that survives merging a run start with a child
+(adjacent, when the pass checks adjacency) holds of everything the loop writes -/
+theorem runGo_all (cfg : RunCfg) (P : Span → Prop)
+    (hmerge : ∀ s c : Span, P s → P c → (cfg.adj = true → s.stop = c.start) → P ⟨s.start, c.stop⟩)
+    (toks : List Tok) (hin : ∀ t ∈ toks, P t.span) :
+    (∀ p ∈ runGo cfg .scan toks, P p.1.span) ∧
+    (∀ s n held, P s → (∀ p ∈ held, P p.1.span) → ∀ p ∈ runGo cfg (.absorb s n held) toks, P p.1.span) := by
+  induction toks with
+  | nil =>
+    refine ⟨by simp [runGo], ?_⟩
+    intro s n held hs hh p hp
+    simp only [runGo, List.mem_cons, List.mem_reverse] at hp
+    rcases hp with rfl | hp
+    · exact hs
+    · exact hh p hp
+  | cons c r ih =>
+    obtain ⟨ih1, ih2⟩ := ih (fun t ht => hin t (List.mem_cons_of_mem _ ht))
+    have hc := hin c (by simp)
+    have emit : ∀ (s : Span) (n : Nat) (held : List (Tok × Bool)), P s → (∀ p ∈ held, P p.1.span) →
+        ∀ p ∈ ((⟨s, cfg.mkKind n⟩, false) :: (held.reverse ++ (c, false) :: runGo cfg .scan r) : List (Tok × Bool)),
+          P p.1.span := by
+      intro s n held hs hh p hp
+      simp only [List.mem_cons, List.mem_append, List.mem_reverse] at hp
+      rcases hp with rfl | hp | rfl | hp
+      · exact hs
+      · exact hh p hp
+      · exact hc
+      · exact ih1 p hp
+    refine ⟨?_, ?_⟩
+    · intro p hp
+      simp only [runGo] at hp
+      split at hp
+      · exact ih2 _ _ [] hc (by simp) p hp
+      · rcases List.mem_cons.mp hp with rfl | hp
+        · exact hc
+        · exact ih1 p hp
+    · intro s n held hs hh p hp
+      simp only [runGo] at hp
+      split at hp
+      · exact emit s n held hs hh p hp
+      · rename_i hadj
+        split at hp
+        · refine ih2 _ _ _ (hmerge s c.span hs hc ?_) ?_ p hp
+          · intro ha
+            simpa [ha] using hadj
+          · intro q hq
+            rcases List.mem_cons.mp hq with rfl | hq
+            · exact hc
+            · exact hh q hq
+        · exact emit s n held hs hh p hp
+
+theorem condenseRun_all (cfg : RunCfg) (P : Span → Prop)
+    (hmerge : ∀ s c : Span, P s → P c → (cfg.adj = true → s.stop = c.start) → P ⟨s.start, c.stop⟩)
+    (toks : List Tok) (hin : ∀ t ∈ toks, P t.span) : ∀ t ∈ dropFlagged (runGo cfg .scan toks), P t.span := by
+  intro t ht
+  rw [dropFlagged_eq] at ht
+  exact (runGo_all cfg P hmerge toks hin).1 _ (mem_of_mem_unflag ht)
+
+/-- `condense_dotted_initialisms` -/
+theorem initGo_all (P : Span → Prop) (hmerge : ∀ s c : Span, P s → P c → P ⟨s.start, c.stop⟩) :
+    ∀ (n : Nat) (toks : List Tok), toks.length ≤ n → (∀ t ∈ toks, P t.span) →
+    (∀ p ∈ initGo .idle toks, P p.1.span) ∧
+    (∀ st e held, P st.span → P ⟨st.span.start, e⟩ → (∀ p ∈ held, P p.1.span) →
+      ∀ p ∈ initGo (.inside st e held) toks, P p.1.span) := by
+  intro n
+  induction n with
+  | zero =>
+    intro toks hlen hin
+    have : toks = [] := by cases toks <;> simp_all
+    subst this
+    refine ⟨by simp [initGo], ?_⟩
+    intro st e held hst he hh p hp
+    simp only [initGo, List.map_nil, List.append_nil, List.mem_cons, List.mem_reverse] at hp
+    rcases hp with rfl | hp
+    · exact he
+    · exact hh p hp
+  | succ n ih =>
+    intro toks hlen hin
+    match toks, hlen, hin with
+    | [], _, hin => exact ih [] (by simp) hin
+    | [a], _, hin =>
+      have ha := hin a (by simp)
+      refine ⟨by simpa [initGo] using ha, ?_⟩
+      intro st e held hst he hh p hp
+      simp only [initGo, List.map_cons, List.map_nil, List.mem_cons, List.mem_append, List.mem_reverse,
+        List.not_mem_nil, or_false] at hp
+      rcases hp with rfl | hp | rfl
+      · exact he
+      · exact hh p hp
+      · exact ha
+    | a :: b :: rest, hlen, hin =>
+      have ha := hin a (by simp)
+      have hb := hin b (by simp)
+      have hinb : ∀ t ∈ b :: rest, P t.span := fun t ht => hin t (List.mem_cons_of_mem _ ht)
+      have hinr : ∀ t ∈ rest, P t.span := fun t ht => hinb t (List.mem_cons_of_mem _ ht)
+      have ihr := ih rest (by simp at hlen ⊢; omega) hinr
+      have ihb := ih (b :: rest) (by simp at hlen ⊢; omega) hinb
+      refine ⟨?_, ?_⟩
+      · intro p hp
+        simp only [initGo] at hp
+        split at hp
+        · exact ihr.2 a b.span.stop [(b, true)] ha (hmerge _ _ ha hb) (by simpa using hb) p hp
+        · rcases List.mem_cons.mp hp with rfl | hp
+          · exact ha
+          · exact ihb.1 p hp
+      · intro st e held hst he hh p hp
+        simp only [initGo] at hp
+        split at hp
+        · refine ihr.2 st b.span.stop _ hst (hmerge _ _ hst hb) ?_ p hp
+          intro q hq
+          simp only [List.mem_cons] at hq
+          rcases hq with rfl | rfl | hq
+          · exact hb
+          · exact ha
+          · exact hh q hq
+        · simp only [List.mem_cons, List.mem_append, List.mem_reverse] at hp
+          rcases hp with rfl | hp | rfl | hp
+          · exact he
+          · exact hh p hp
+          · exact ha
+          · exact ihb.1 p hp
+
+theorem dottedInitialisms_all (P : Span → Prop) (hmerge : ∀ s c : Span, P s → P c → P ⟨s.start, c.stop⟩)
+    (toks : List Tok) (hin : ∀ t ∈ toks, P t.span) : ∀ t ∈ dottedInitialisms toks, P t.span := by
+  intro t ht
+  unfold dottedInitialisms at ht
+  rw [dropFlagged_eq] at ht
+  exact (initGo_all P hmerge toks.length toks (Nat.le_refl _) hin).1 _ (mem_of_mem_unflag ht)
+
+
+/-! ### ordered input with gaps and zero-width tokens (`Gap`): the flagged-vector passes -/
+
+theorem runGo_gap_aux (cfg : RunCfg) (toks : List Tok) :
+    (∀ p b, Gap toks p b → Gap (unflag (runGo cfg .scan toks)) p b) ∧
+    (∀ s n held p b, Gap toks p b → s.start ≤ s.stop → unflag held.reverse = [] → s.stop ≤ p →
+      Gap (unflag (runGo cfg (.absorb s n held) toks)) s.start b) := by
+  induction toks with
+  | nil =>
+    refine ⟨?_, ?_⟩
+    · intro p b h; simpa [runGo] using h
+    · intro s n held p b h hlt hh hs
+      simp only [Gap] at h
+      simp only [runGo, unflag_cons_false, hh]
+      exact ⟨Nat.le_refl _, hlt, by simp only [Gap]; omega⟩
+  | cons c r ih =>
+    obtain ⟨ih1, ih2⟩ := ih
+    have emit : ∀ (s : Span) (n : Nat) (held : List (Tok × Bool)) (p b : Nat), Gap (c :: r) p b →
+        s.start ≤ s.stop → unflag held.reverse = [] → s.stop ≤ p →
+        Gap (unflag ((⟨s, cfg.mkKind n⟩, false) :: (held.reverse ++ (c, false) :: runGo cfg .scan r)))
+          s.start b := by
+      intro s n held p b h hlt hh hs
+      obtain ⟨c1, c2, c3⟩ := h
+      simp only [unflag_cons_false, unflag_append, hh, List.nil_append]
+      exact ⟨Nat.le_refl _, hlt, by simp only; omega, c2, ih1 _ _ c3⟩
+    refine ⟨?_, ?_⟩
+    · intro p b h
+      obtain ⟨c1, c2, c3⟩ := h
+      simp only [runGo]
+      split
+      · rename_i n _
+        exact (ih2 c.span n [] c.span.stop b c3 c2 (by simp) (Nat.le_refl _)).mono c1 (Nat.le_refl _)
+      · simp only [unflag_cons_false]
+        exact ⟨c1, c2, ih1 _ _ c3⟩
+    · intro s n held p b h hlt hh hs
+      simp only [runGo]
+      split
+      · exact emit s n held p b h hlt hh hs
+      · split
+        · rename_i m hm
+          obtain ⟨c1, c2, c3⟩ := h
+          exact ih2 ⟨s.start, c.span.stop⟩ (n + m) ((c, true) :: held) c.span.stop b c3
+            (by simp only; omega) (by simp [hh]) (Nat.le_refl _)
+        · exact emit s n held p b h hlt hh hs
+
+theorem condenseSpaces_gap' (toks : List Tok) (a b : Nat) (h : Gap toks a b) : Gap (condenseSpaces toks) a b := by
+  unfold condenseSpaces
+  rw [dropFlagged_eq]
+  exact (runGo_gap_aux spacesCfg toks).1 a b h
+
+theorem condenseNewlines_gap' (toks : List Tok) (a b : Nat) (h : Gap toks a b) : Gap (condenseNewlines toks) a b := by
+  unfold condenseNewlines
+  rw [dropFlagged_eq]
+  exact (runGo_gap_aux newlinesCfg toks).1 a b h
+
+theorem gap_of_spans {l1 l2 : List Tok} (h : l1.map (·.span) = l2.map (·.span)) {p q : Nat}
+    (ht : Gap l2 p q) : Gap l1 p q := by
+  induction l1 generalizing l2 p with
+  | nil => cases l2 <;> simp_all
+  | cons a l1 ih =>
+    cases l2 with
+    | nil => simp at h
+    | cons b l2 =>
+      simp only [List.map_cons, List.cons.injEq] at h
+      obtain ⟨b1, b2, hr⟩ := ht
+      rw [← h.1] at b1 b2 hr
+      exact ⟨b1, b2, ih h.2 hr⟩
+
+theorem all_of_spans {l1 l2 : List Tok} (h : l1.map (·.span) = l2.map (·.span)) (P : Span → Prop)
+    (ht : ∀ t ∈ l2, P t.span) : ∀ t ∈ l1, P t.span := by
+  intro t hm
+  have : t.span ∈ l1.map (·.span) := List.mem_map_of_mem hm
+  rw [h] at this
+  obtain ⟨u, hu, e⟩ := List.mem_map.mp this
+  rw [← e]; exact ht u hu
+
+theorem newlinesToBreaks_span (toks : List Tok) : (newlinesToBreaks toks).map (·.span) = toks.map (·.span) := by
+  unfold newlinesToBreaks
+  simp [List.map_map, Function.comp_def]
+
+theorem initGo_gap_aux : ∀ (n : Nat) (toks : List Tok), toks.length ≤ n →
+    (∀ p b, Gap toks p b → Gap (unflag (initGo .idle toks)) p b) ∧
+    (∀ st e held p b, Gap toks p b → st.span.start ≤ e → e ≤ p → unflag held.reverse = [] →
+      Gap (unflag (initGo (.inside st e held) toks)) st.span.start b) := by
+  intro n
+  induction n with
+  | zero =>
+    intro toks hlen
+    have : toks = [] := by cases toks <;> simp_all
+    subst this
+    refine ⟨fun p b h => by simpa [initGo] using h, ?_⟩
+    intro st e held p b h hlt he hnil
+    simp only [Gap] at h
+    simp only [initGo, List.map_nil, List.append_nil, unflag_cons_false, hnil, Gap]
+    omega
+  | succ n ih =>
+    intro toks hlen
+    match toks, hlen with
+    | [], _ => exact ih [] (by simp)
+    | [a], _ =>
+      refine ⟨fun p b h => by simpa [initGo] using h, ?_⟩
+      intro st e held p b h hlt he hnil
+      simp only [initGo, List.map_cons, List.map_nil, unflag_cons_false, unflag_append, hnil,
+        List.nil_append, unflag_nil]
+      exact ⟨Nat.le_refl _, hlt, h.mono he (Nat.le_refl _)⟩
+    | a :: b :: rest, hlen =>
+      have ihr := ih rest (by simp at hlen ⊢; omega)
+      have ihb := ih (b :: rest) (by simp at hlen ⊢; omega)
+      refine ⟨?_, ?_⟩
+      · intro p bb h
+        obtain ⟨a1, a2, b1, b2, hr⟩ := h
+        simp only [initGo]
+        split
+        · exact (ihr.2 a b.span.stop [(b, true)] b.span.stop bb hr (by omega) (Nat.le_refl _) (by simp)).mono a1
+            (Nat.le_refl _)
+        · simp only [unflag_cons_false]
+          exact ⟨a1, a2, ihb.1 _ _ ⟨b1, b2, hr⟩⟩
+      · intro st e held p bb h hlt he hnil
+        obtain ⟨a1, a2, b1, b2, hr⟩ := h
+        simp only [initGo]
+        split
+        · exact ihr.2 st b.span.stop _ b.span.stop bb hr (by omega) (Nat.le_refl _) (by simp [hnil])
+        · simp only [unflag_cons_false, unflag_append, hnil, List.nil_append]
+          exact ⟨Nat.le_refl _, hlt, by simp only; omega, a2, ihb.1 _ _ ⟨b1, b2, hr⟩⟩
+
+theorem dottedInitialisms_gap' (toks : List Tok) (a b : Nat) (h : Gap toks a b) :
+    Gap (dottedInitialisms toks) a b := by
+  unfold dottedInitialisms
+  rw [dropFlagged_eq]
+  exact (initGo_gap_aux toks.length toks (Nat.le_refl _)).1 a b h
+
+
+/-! ### `condense_indices` / `condense_number_suffixes`: whatever comes out -/
+
+theorem sliceE_mem {α} {l s : List α} {a b : Nat} (h : sliceE l a b = .ok s) : ∀ x ∈ s, x ∈ l := by
+  unfold sliceE at h
+  split at h
+  · cases h
+  · cases h
+    intro x hx
+    exact List.mem_of_mem_drop (List.mem_of_mem_take hx)
+
+theorem stretchSpans_all (P : Span → Prop) (hmerge : ∀ s c : Span, P s → P c → P ⟨s.start, c.stop⟩) (k : Nat) :
+    ∀ (idx : List Nat) (toks old : List Tok), stretchSpans k idx toks = .ok old → (∀ t ∈ toks, P t.span) →
+      ∀ t ∈ old, P t.span := by
+  intro idx
+  induction idx with
+  | nil => intro toks old h hin; simp only [stretchSpans] at h; cases h; exact hin
+  | cons i r ih =>
+    intro toks old h hin
+    simp only [stretchSpans] at h
+    split at h
+    · cases h
+    · split at h
+      · rename_i e s he hs
+        refine ih _ _ h ?_
+        intro t ht
+        rcases List.mem_or_eq_of_mem_set ht with ht | rfl
+        · exact hin t ht
+        · exact hmerge _ _ (hin s (List.mem_of_getElem? hs)) (hin e (List.mem_of_getElem? he))
+      · cases h
+
+theorem keepPieces_mem (k : Nat) (old : List Tok) : ∀ (idx : List Nat) (out : List Tok),
+    keepPieces k old idx = .ok out → ∀ x ∈ out, x ∈ old := by
+  intro idx
+  induction idx with
+  | nil => intro out h; simp only [keepPieces] at h; cases h; simp
+  | cons a r ih =>
+    cases r with
+    | nil =>
+      intro out h x hx
+      simp only [keepPieces] at h
+      split at h
+      · rename_i t ht; cases h; simp only [List.mem_singleton] at hx; subst hx; exact List.mem_of_getElem? ht
+      · cases h
+    | cons b r =>
+      intro out h x hx
+      simp only [keepPieces] at h
+      split at h
+      · rename_i t mid rest ht hmid hrest
+        cases h
+        simp only [List.mem_cons, List.mem_append] at hx
+        rcases hx with (rfl | hx) | hx
+        · exact List.mem_of_getElem? ht
+        · exact sliceE_mem hmid x hx
+        · exact ih rest hrest x hx
+      · cases h
+      · cases h
+      · cases h
+
+theorem condenseIndices_all (P : Span → Prop) (hmerge : ∀ s c : Span, P s → P c → P ⟨s.start, c.stop⟩)
+    (idx : List Nat) (k : Nat) (toks out : List Tok) (h : condenseIndices idx k toks = .ok out)
+    (hin : ∀ t ∈ toks, P t.span) : ∀ t ∈ out, P t.span := by
+  unfold condenseIndices at h
+  split at h
+  · cases h
+  · rename_i old hold
+    have hold' := stretchSpans_all P hmerge k idx toks old hold hin
+    split at h
+    · rename_i first mid last h1 h2 h3
+      cases h
+      intro t ht
+      simp only [List.mem_append] at ht
+      rcases ht with (ht | ht) | ht
+      · exact hold' t (sliceE_mem h1 t ht)
+      · exact hold' t (keepPieces_mem k old idx mid h2 t ht)
+      · exact hold' t (sliceE_mem h3 t ht)
+    · cases h
+    · cases h
+    · cases h
+
+theorem suffixScan_span (src : List Char) : ∀ (toks : List Tok) (i : Nat) (ts : List Tok) (idx : List Nat),
+    suffixScan src i toks = .ok (ts, idx) → ts.map (·.span) = toks.map (·.span) := by
+  intro toks
+  induction toks with
+  | nil => intro i ts idx h; simp only [suffixScan] at h; cases h; rfl
+  | cons a t ih =>
+    cases t with
+    | nil => intro i ts idx h; simp only [suffixScan] at h; cases h; rfl
+    | cons b rest =>
+      intro i ts idx h
+      unfold suffixScan at h
+      split at h
+      · cases h
+      · split at h
+        · cases h
+        · rename_i hit _ ts' idx' hrec
+          have := ih (i + 1) ts' idx' hrec
+          split at h <;> cases h <;> simp [this]
+
+theorem numberSuffixes_all (P : Span → Prop) (hmerge : ∀ s c : Span, P s → P c → P ⟨s.start, c.stop⟩)
+    (src : List Char) (toks out : List Tok) (h : numberSuffixes src toks = .ok out)
+    (hin : ∀ t ∈ toks, P t.span) : ∀ t ∈ out, P t.span := by
+  unfold numberSuffixes at h
+  split at h
+  · cases h; exact hin
+  · split at h
+    · cases h
+    · rename_i ts idx hs
+      exact condenseIndices_all P hmerge idx 2 ts out h
+        (all_of_spans (suffixScan_span src toks 0 ts idx hs) P hin)
+
+
+/-! ### `condense_number_suffixes` on in-bounds input: never panics; ordered input stays ordered -/
+
+theorem getContent_ok_le {α} (s : Span) (src : List α) (h1 : s.start ≤ s.stop) (h2 : s.stop ≤ src.length) :
+    s.getContent src = .ok ((src.drop s.start).take (s.stop - s.start)) := by
+  unfold Span.getContent
+  rw [if_neg (by omega)]
+  split
+  · have : s.stop = s.start := by omega
+    simp [this]
+  · rfl
+
+theorem suffixHit_ok_le (src : List Char) (a b : Tok) (h1 : b.span.start ≤ b.span.stop)
+    (h2 : b.span.stop ≤ src.length) : ∃ r, suffixHit src a b = .ok r := by
+  unfold suffixHit
+  split
+  · rw [if_neg (by omega)]
+    split
+    · exact ⟨_, rfl⟩
+    · rename_i hlen
+      rw [getContent_ok_le _ _ h1 h2]
+      simp only
+      apply fromChars_ok_of_len2
+      simp only [Span.len, bne_iff_ne, ne_eq, Decidable.not_not] at hlen
+      simp; omega
+  · exact ⟨_, rfl⟩
+
+theorem suffixes_gap_aux (src : List Char) : ∀ (n : Nat) (toks : List Tok), toks.length ≤ n →
+    InBounds src.length toks →
+    ∃ ts idx out, suffixScan src 0 toks = .ok (ts, idx) ∧ condenseIndices idx 2 ts = .ok out ∧
+      ∀ p q, Gap toks p q → Gap out p q := by
+  intro n
+  induction n with
+  | zero =>
+    intro toks hlen _
+    have : toks = [] := by cases toks <;> simp_all
+    subst this
+    exact ⟨[], [], [], by simp [suffixScan], condenseIndices_nil _, fun _ _ h => h⟩
+  | succ n ih =>
+    intro toks hlen hin
+    match toks, hlen, hin with
+    | [], _, _ => exact ⟨[], [], [], by simp [suffixScan], condenseIndices_nil _, fun _ _ h => h⟩
+    | [a], _, _ => exact ⟨[a], [], [a], by simp [suffixScan], condenseIndices_nil _, fun _ _ h => h⟩
+    | a :: b :: rest, hlen, hin =>
+      have hb := hin b (by simp)
+      have hinb : InBounds src.length (b :: rest) := fun t ht => hin t (List.mem_cons_of_mem _ ht)
+      have hinr : InBounds src.length rest := fun t ht => hinb t (List.mem_cons_of_mem _ ht)
+      obtain ⟨hit, hhit⟩ := suffixHit_ok_le src a b hb.1 hb.2
+      cases hit with
+      | none =>
+        obtain ⟨ts1, idx0, out1, e1, e2, e3⟩ := ih (b :: rest) (by simp at hlen ⊢; omega) hinb
+        refine ⟨a :: ts1, idx0.map (· + 1), a :: out1, ?_, ?_, ?_⟩
+        · rw [suffixScan, hhit, suffixScan_shift, e1]; simp [Except.map]
+        · rw [condenseIndices_cons, e2]; rfl
+        · intro p q h
+          obtain ⟨a1, a2, h3⟩ := h
+          exact ⟨a1, a2, e3 _ _ h3⟩
+      | some s =>
+        have hw := suffixHit_some src a b s hhit
+        obtain ⟨ts2, idx2, out2, e1, e2, e3⟩ := ih rest (by simp at hlen ⊢; omega) hinr
+        refine ⟨⟨a.span, setSuffix s a.kind⟩ :: b :: ts2, 0 :: idx2.map (· + 2),
+          ⟨⟨a.span.start, b.span.stop⟩, setSuffix s a.kind⟩ :: out2, ?_, ?_, ?_⟩
+        · rw [suffixScan, hhit, suffixScan_shift, suffixScan_word _ _ _ hw, e1]
+          simp [Except.map]
+        · rw [condenseIndices_hit, e2]; rfl
+        · intro p q h
+          obtain ⟨a1, a2, b1, b2, hr⟩ := h
+          exact ⟨a1, by simp only; omega, e3 _ _ hr⟩
+
+theorem numberSuffixes_gap' (src : List Char) (toks : List Tok) (hin : InBounds src.length toks) :
+    ∃ out, numberSuffixes src toks = .ok out ∧ ∀ p q, Gap toks p q → Gap out p q := by
+  unfold numberSuffixes
+  split
+  · exact ⟨toks, rfl, fun _ _ h => h⟩
+  · obtain ⟨ts, idx, out, e1, e2, e3⟩ := suffixes_gap_aux src toks.length toks (Nat.le_refl _) hin
+    rw [e1]
+    exact ⟨out, e2, e3⟩
+
+end Harper
